@@ -179,6 +179,9 @@ def gen_inputs():
             raise SystemExit(2)
 
 
+FOCUS = {"prop": None}
+
+
 def kani_build(features, hooks=True):
     """Compile /repo + the harness modules of `features` with Kani's compiler; returns
     (list of harness metadata dicts, build seconds, hooks_on). Must be called under build lock."""
@@ -191,6 +194,8 @@ def kani_build(features, hooks=True):
     if hooks:
         flags = (flags + f" --cfg {GUARD}").strip()
     env["RUSTFLAGS"] = flags
+    if FOCUS["prop"]:
+        env["EGV_FOCUS"] = FOCUS["prop"]
     cmd = ["cargo", "kani", "--only-codegen", "--no-assertion-reach-checks", "--target-dir", TARGET,
            "--no-default-features", "--features", ",".join(features)]
     t0 = time.time()
@@ -438,6 +443,8 @@ fn main() {
     env = dict(ENV)
     if hooks:
         env["RUSTFLAGS"] = (env.get("RUSTFLAGS", "") + f" --cfg {GUARD}").strip()
+    if FOCUS["prop"]:
+        env["EGV_FOCUS"] = FOCUS["prop"]
     bins = {}
     for prof in ("dev", "release"):
         cmd = ["cargo", "build", "--offline", "--target-dir", TARGET_NATIVE, "--no-default-features",
@@ -521,6 +528,7 @@ def prop_features(reg, prop):
 
 def check_property(prop, tier, only=None, keep=False, seed=0):
     t_start = time.time()
+    FOCUS["prop"] = prop
     reg = load_registry()
     known = load_known()
     pmeta = reg.get("property", {}).get(prop, {})
@@ -908,6 +916,7 @@ def do_replay(path):
     with open(path) as f:
         rp = json.load(f)
     features = rp["features"]
+    FOCUS["prop"] = rp.get("property")
     with FileLock(os.path.join(SLOTS, "build.lock")):
         gen_inputs()
     with FileLock(os.path.join(SLOTS, "native.lock")):
